@@ -107,6 +107,8 @@ def layout_stage(prop, tier, name):
             cases.append(("slice", tuple(x["t"]), x["n"]))
         elif x["family"] == "sized":
             cases.append(("sized", tuple(x["t"])))
+        elif x["family"] == "arcswap":
+            pass
         elif x["family"] == "union":
             cases.append(("sized", tuple(x["a"])))
             cases.append(("sized", tuple(x["b"])))
@@ -120,6 +122,21 @@ def layout_stage(prop, tier, name):
         tag = "%s %s/%s %s" % (fam, x.get("ctor"), x.get("path"), {k: x[k] for k in ("h", "t", "a", "b", "n", "len") if k in x})
         def bad(cat, msg):
             errs.append((cat, "%s|%s|%s" % (fam, x.get("ctor"), x.get("path")), "[%s] %s: %s" % (cat, tag, msg), x))
+        if fam == "arcswap":
+            if x["panicked"]:
+                bad("panicked", "the ArcSwap scenario panicked")
+                continue
+            if x["counts"] != x["expected_counts"]:
+                bad("count", "counts (a, b) along new/load_full/load/store/swap/compare_and_swap/into_inner are %s, the cell owning exactly one count of what it holds gives %s" % (x["counts"], x["expected_counts"]))
+            for k, v in x["facts"].items():
+                if v is not True:
+                    bad("heap", "%s is false" % k)
+            for which in ("deallocs_a", "deallocs_b"):
+                if len(x[which]) != 1 or x[which][0][2] != 0:
+                    bad("frees", "%s: %s" % (which, x[which]))
+            if x["bad_events"]:
+                bad("layout", "%d bad allocator/destructor event(s)" % x["bad_events"])
+            continue
         if fam == "overflow":
             if not x["panicked"]:
                 bad("alloc", "a size computation that overflows isize was not refused with a panic")
@@ -178,6 +195,8 @@ def layout_stage(prop, tier, name):
                        ("slice_aligned", "align"), ("contents_ok", "contents"), ("len_ok", "contents"),
                        ("offset_bits_are_value_addr", "bits"), ("borrow_bits_are_value_addr", "bits"), ("one_word", "width"),
                        ("dyn_two_words", "width"), ("two_words", "width"), ("thin_one_word", "width"), ("thin_as_ptr_is_block", "heap"),
+                       ("refcnt_as_ptr_is_value_addr", "heap"), ("pointer_fmt_is_block", "heap"), ("thin_refcnt_as_ptr_is_block", "heap"),
+                       ("thin_pointer_fmt_is_block", "heap"),
                        ("same_value_addr", "union"), ("variant_ok", "union"), ("count_is_two", "union"), ("tag_bit_free", "union")):
             if k in mm and mm[k] is not True:
                 bad(cat, "%s is false" % k)
@@ -194,7 +213,7 @@ def layout_stage(prop, tier, name):
     res["samples"] = [recs[len(recs) // 3], recs[2 * len(recs) // 3]]
     res["detail"]["table_rows"] = len(cases)
     REL = {"C05": {"size", "frees", "layout", "alloc", "align", "panicked", "contents"},
-           "C11": {"addr", "heap", "bits", "width", "panicked", "thin"},
+           "C11": {"addr", "heap", "bits", "width", "panicked", "thin", "count"},
            "C12": {"union", "size", "layout", "frees", "panicked", "addr", "heap", "width"},
            "C06": {"contents", "panicked", "frees"},
            "C10": {"thin", "addr", "heap", "size", "layout", "frees", "panicked", "contents"}}[prop]
@@ -206,7 +225,7 @@ def layout_stage(prop, tier, name):
             continue
         if prop == "C10" and not (x["family"] == "hs" and x.get("ctor", "").startswith(("thin", "fat_into"))):
             continue
-        if prop == "C11" and cat == "panicked" and not any(s in x.get("path", "") for s in ("raw", "offset", "refcnt", "dyn", "borrow")):
+        if prop == "C11" and cat == "panicked" and not any(s in x.get("path", "") for s in ("raw", "offset", "refcnt", "dyn", "borrow", "swap")):
             continue
         k2 = (cat, key)
         if k2 in seen:
